@@ -206,6 +206,8 @@ func init() {
 				Quick: tierCfg{Params: map[string]int{"path_bytes": 7}}, Thorough: tierCfg{Params: map[string]int{"path_bytes": 10}}},
 			{Pkg: "dcs", Entry: "H_C15_retry", Witnesses: []string{"C15.retry.refused", "C15.retry.taken"},
 				Quick: tierCfg{Params: map[string]int{"zk_faults": 1}}, Thorough: tierCfg{Params: map[string]int{"zk_faults": 2}}},
+			{Pkg: "dcs", Entry: "H_C15_retry_write", Witnesses: []string{"C15.retry-write.faulted", "C15.retry-write.created", "C15.retry-write.exists"},
+				Quick: tierCfg{Params: map[string]int{"zk_faults": 1}}, Thorough: tierCfg{Params: map[string]int{"zk_faults": 2}}},
 			{Pkg: "dcs", Entry: "H_C15_ephemeral_lifetime", Witnesses: []string{"C15.ephemeral"}},
 		},
 		Encoded: []string{"(*dcs.zkDCS).create", "(*dcs.zkDCS).set", "(*dcs.zkDCS).Get", "(*dcs.zkDCS).Delete", "(*dcs.zkDCS).GetChildren", "(*dcs.zkDCS).buildFullPath", "(*dcs.zkDCS).makePath",
